@@ -66,9 +66,9 @@ class TimePass:
         p.header_fields = d.get("header_fields")
         return p
 
-    def build(self, ctx, rng):
+    def build(self, ctx, rng, **kw):
         fam = FMT[self.fmt]["family"]
-        b = PassBuilder(ctx, self.fmt, len(self.nums), rng, start_ms=self.start_ms, line_numbers=self.nums)
+        b = PassBuilder(ctx, self.fmt, len(self.nums), rng, start_ms=self.start_ms, line_numbers=self.nums, **kw)
         b.header_ms = self.header_ms
         if fam == "klm":
             b.overrides["scan_line_year"] = self.year
